@@ -35,6 +35,8 @@ func variantByName(world, name string) (Variant, bool) {
 		return simrunAsm, true
 	case "purego":
 		return simrunPurego, true
+	case "asm-v3":
+		return simrunAsmV3, true
 	case "asm-go1.26":
 		return simStall, true
 	}
@@ -59,8 +61,12 @@ func Replay(verifDir, path string) (int, error) {
 	if rf.World == "conc" {
 		return replayConcFile(e, rf, path)
 	}
-	if rf.Variant == "asm+purego" {
-		binA, err := e.Build(simrunAsm)
+	if strings.HasSuffix(rf.Variant, "+purego") {
+		av := simrunAsm
+		if rf.Variant == simrunAsmV3.Name+"+purego" {
+			av = simrunAsmV3
+		}
+		binA, err := e.Build(av)
 		if err != nil {
 			return 2, err
 		}
